@@ -6,6 +6,7 @@
 import NextestModel.Lemmas.Dispatcher
 import NextestModel.Thm.C08
 import NextestModel.Lemmas.SchedLive
+import NextestModel.Lemmas.System
 import NextestModel.Thm.C07
 namespace NextestModel.C02
 open NextestModel.Dispatcher
@@ -77,6 +78,27 @@ theorem finished_unregisters (s : DState) (i : Nat) (r : Res) (slow : Bool) (st 
         obtain ⟨rfl, _, _, _⟩ := h
         rfl
   simp [registered, hrun, List.any_filter]
+
+/-! ## The dispatcher with its units: the registration panics are unreachable -/
+
+/-- **The dispatcher never panics on what its units send** (`new_test`: "test instance already present", `existing_test` /
+    `finish_test`: "test instance not found"): in every state the dispatcher × units system can reach — any number of tests,
+    any max-fail, EVERY interleaving of scheduling, attempts ending with or without a retry, requests, timers, signals,
+    reporter errors and deliveries — the next executor event can be handled.  Behind it: per unit, the undelivered messages
+    are one of a few patterns fixed by the unit's phase (the channel is FIFO, a unit is sequential), a unit that has not been
+    acknowledged is not registered, and one whose `Finished` is still on its way is. -/
+theorem dispatcher_panic_free (n : Nat) (mf : MaxFail) (acts : List System.Act) (s : System.Sys)
+    (h : System.runActs (System.Sys.init n mf) acts = some s) (hne : s.chan ≠ []) :
+    ∃ s', System.step s .deliver = some s' := by
+  obtain ⟨h1, h2⟩ := System.inv12_run acts _ s (System.inv_init n mf) (System.inv2_init n mf) h
+  exact System.deliver_enabled s h1 h2 hne
+
+/-- … and every test is reported started at most once and finished at most once, and finished only after it started: per
+    unit, a `Started` is in flight only while the unit waits for the reply to it, and a `Finished` only once the unit is done -/
+theorem unit_messages_follow_phase (n : Nat) (mf : MaxFail) (acts : List System.Act) (s : System.Sys)
+    (h : System.runActs (System.Sys.init n mf) acts = some s) (i : Nat) :
+    System.Pat i (s.phase i) (System.proj i s.chan) :=
+  (System.inv12_run acts _ s (System.inv_init n mf) (System.inv2_init n mf) h).2.pat i
 
 /-! ## Scheduler: is every selected test's future eventually created? -/
 
